@@ -29,7 +29,8 @@ RULE = (
     "distinct by (tree, sequence) - enumeration visits each pair once, generated pairs are de-duplicated by digest"
 )
 ASSUMPTIONS = [
-    "atoms are plain strings, wrapped by the engine into Identity predicates (pairwise disjoint unless equal)",
+    "atoms are supplied in three ways, rotating over the enumeration: plain strings (wrapped by the engine into Identity predicates), a fresh equal predicate object at every occurrence, one predicate object per letter; "
+    "in half of the patterns identical sub-patterns are one shared operator object (plus a family in which a sub-pattern occurs two or three times)",
     "the engine's global state counter (State._id) is set to drawn values, including 1 as the project's own tests do, before a pattern is built",
     "for sequences longer than 3 the NFA/DFA of a tree is built once and reused across sequences "
     "(matcher.expression_to_nfa / nfa_to_dfa memoised per tree); sequences up to length 3 go through the unmodified entry points",
